@@ -9,6 +9,14 @@ PROPS = {
     "C03": {"trusted": [], "assumptions": COMMON_ASSUME + CRYPTO_ASSUME},
     "C04": {"trusted": ["crypto/rand is external: randomisers are explicit arguments of the model prover; the op replayD replays the real prover's draws (read through verif hooks) in the model prover and compares the proofs"], "assumptions": COMMON_ASSUME + CRYPTO_ASSUME},
     "C05": {"trusted": ["ProbablyPrime(80) is an oracle (parameter isPrime of the model; executable stand-in: deterministic Miller-Rabin)"], "assumptions": COMMON_ASSUME + CRYPTO_ASSUME},
+    "C06": {"trusted": ["crypto/rand draws are explicit arguments of the model (Prover.lean); the holder-side state of ConstructCredential is injected through the verif hook VerifNewCredentialBuilder"], "assumptions": COMMON_ASSUME + CRYPTO_ASSUME},
+    "C09": {"trusted": ["ECDSA signatures and CBOR are external: a signed accumulator is modelled as (content, key counter, signature-valid flag)"], "assumptions": COMMON_ASSUME + CRYPTO_ASSUME},
+    "C10": {"trusted": ["ECDSA / CBOR / multihash library / base64 are external; the harness computes an independent view of every signed blob (crypto/ecdsa + cbor directly) and its own event hash"], "assumptions": COMMON_ASSUME + CRYPTO_ASSUME},
+    "C11": {"trusted": ["ECDSA / CBOR external (independent signature views computed by the harness)", "Go map iteration order is a parameter of the model: the model lists the verdicts for every order"], "assumptions": COMMON_ASSUME + CRYPTO_ASSUME},
+    "C12": {"trusted": [], "assumptions": COMMON_ASSUME + CRYPTO_ASSUME},
+    "C13": {"trusted": ["the randomised four-square splitter is checked, not proved (op sum4 of C19 and every proof built here)"], "assumptions": COMMON_ASSUME + CRYPTO_ASSUME},
+    "C14": {"trusted": ["the CBOR encoding of the keyshare challenge input is external (treated as an injective encoding)"], "assumptions": COMMON_ASSUME + CRYPTO_ASSUME},
+    "C07": {"trusted": ["crypto/rand and AES-CTR outputs being fresh is an assumption; C20 covers the block counter"], "assumptions": COMMON_ASSUME + CRYPTO_ASSUME},
     "C08": {"trusted": ["encoding/json is external; the model decoder is compared with it on every structural mutant"], "assumptions": COMMON_ASSUME},
     "C19": {
         "trusted": ["math/big (GCD, Exp, ModInverse, ModSqrt, ProbablyPrime) is external; ProbablyPrime is an oracle assumed correct (the model uses deterministic Miller-Rabin on the tested inputs)",
